@@ -314,7 +314,7 @@ class Initiator(DataExchangeProtocol):
             error = "unrecoverable NFC-DEP error in attention request"
             raise nfc.clf.ProtocolError(error)
 
-        def request_retransmission(self, n_retry_nak, rwt, deadline):
+        def request_retransmission(self, n_retry_nak, rwt, deadline, chaining):
             req = NAK(self.pni, self.did, self.nad)
             for i in range(n_retry_nak):
                 timeout = min(rwt, deadline - time.time())
@@ -328,6 +328,9 @@ class Initiator(DataExchangeProtocol):
                     error = "received NFC-DEP RTOX response to NACK or ATN"
                     raise nfc.clf.ProtocolError(error)
                 expected = (DEP_RES.LastInformation, DEP_RES.MoreInformation)
+                if chaining:
+                    # the response to a chained request is an ACK PDU
+                    expected += (DEP_RES.PositiveAck,)
                 if res.pfb.fmt not in expected:
                     error = "unrecoverable NFC-DEP transmission error"
                     raise nfc.clf.ProtocolError(error)
@@ -351,7 +354,8 @@ class Initiator(DataExchangeProtocol):
                 request_attention(self, 2, rwt, deadline)
                 continue
             except nfc.clf.TransmissionError:
-                res = request_retransmission(self, 2, rwt, deadline)
+                chaining = req.pfb.fmt == DEP_REQ.MoreInformation
+                res = request_retransmission(self, 2, rwt, deadline, chaining)
                 break
 
         if res.pfb.fmt == DEP_RES.NegativeAck:
